@@ -1334,29 +1334,22 @@ class Bits:
         new_slice = bitstring.bitstore.offset_slice_indices_lsb0(slice(start, end, None), len(self))
         msb0_start, msb0_end = self._validate_slice(new_slice.start, new_slice.stop)
 
-        # Search chunks starting near the end and then moving back.
+        # Search chunks starting near the end and then moving back. Each chunk covers the matches that *start* in
+        # [chunk_start, chunk_end), so it needs to extend len(bs) - 1 bits beyond chunk_end.
         c = 0
         increment = max(8192, len(bs) * 80)
-        buffersize = min(increment + len(bs), msb0_end - msb0_start)
-        pos = max(msb0_start, msb0_end - buffersize)
-        while True:
-            found = list(self._findall_msb0(bs, start=pos, end=pos + buffersize, count=None, bytealigned=False))
-            if not found:
-                if pos == msb0_start:
-                    return
-                pos = max(msb0_start, pos - increment)
-                continue
+        chunk_end = msb0_end - len(bs) + 1
+        while chunk_end > msb0_start:
+            chunk_start = max(msb0_start, chunk_end - increment)
+            found = list(self._findall_msb0(bs, start=chunk_start, end=chunk_end + len(bs) - 1, count=None, bytealigned=False))
             while found:
-                if count is not None and c >= count:
-                    return
-                c += 1
                 lsb0_pos = len(self) - found.pop() - len(bs)
                 if not bytealigned or lsb0_pos % 8 == 0:
+                    if count is not None and c >= count:
+                        return
+                    c += 1
                     yield lsb0_pos
-
-            pos = max(msb0_start, pos - increment)
-            if pos == msb0_start:
-                return
+            chunk_end = chunk_start
 
     def rfind(self, bs: BitsType, /, start: Optional[int] = None, end: Optional[int] = None,
               bytealigned: Optional[bool] = None) -> Union[Tuple[int], Tuple[()]]:
